@@ -99,8 +99,11 @@ func IsStaleRead(
 		// assume we're caught up.
 		return false
 	}
-	if fsmIndex == commitIndex {
-		// FSM index is the same as the commit index, so we're caught up.
+	if fsmIndex >= commitIndex {
+		// FSM index has reached the commit index, so we're caught up. The commit
+		// index is only learned from the Leader's append-entries requests, so it
+		// can be lower than the FSM index: it is zero after a restart and stale on
+		// a node that has just stopped being the Leader.
 		return false
 	}
 	// OK, we're not caught up. So was the log that last updated our local FSM
